@@ -299,18 +299,18 @@ def from_tensor(Y):
     return Y[0].T.to(torch.int64).tolist()
 
 
-def check_exact(call, net, X, y):
-    """trusted-base check, not a verdict: the float computation is exact on the starting sequence"""
+def check_exact(call):
+    """trusted-base check, not a verdict: the float computation is exact on the starting sequence (on fresh
+    objects - the caller's objects of the sequence may have been touched by the implementation)"""
     A = call['A']
     mk = torch.tensor(mask_of(call), dtype=torch.bool)
     if not mk.any() or not all(0 <= k < A for k in call['X']):
         return
+    dt = DTYPES[form(call, 'net_dtype')]
+    net, X, y = Net(call['net'], dt, call.get('T')), x_tensor(call), y_tensor(call)
     with torch.no_grad():
         lf = loss_fn(call['loss']) or torch.nn.MSELoss(reduction='none')
-        dt = next(net.parameters()).dtype
-        was = net.training
         l0 = lf(y[:, mk], net(X.to(dt))[:, mk]).mean()
-        net.train(was)
     assert Fraction(float(l0)) == py_loss(call, call['X']), 'inexact float loss in harness net'
 
 
@@ -361,7 +361,7 @@ def run_call(call, pool):
         kw['verbose'] = True
     if form(call, 'start') is not None:
         kw['start'] = form(call, 'start')
-    check_exact(call, net, X, y)
+    check_exact(call)
     net.train(bool(form(call, 'train')))
     old = signal.signal(signal.SIGALRM, _alarm)
     # a non-terminating implementation would otherwise cost TIMEOUT_S per call: once two calls have
